@@ -148,6 +148,23 @@ func EnvValue(l *Log, kind, action string, idx int) any {
 	return EnvStr{ev}
 }
 
+// Native struct types with embedded pointers: the fields Y, Z and W of NE1 are
+// promoted through *NE2 and *NE2.*NE3.
+type (
+	NE3 struct {
+		Z int
+		W string
+	}
+	NE2 struct {
+		*NE3
+		Y int
+	}
+	NE1 struct {
+		*NE2
+		X int
+	}
+)
+
 // Str is a native Stringer.
 type Str string
 
@@ -212,6 +229,10 @@ func Declarations(l *Log, nilIntPtr **int, nilMap *map[string]int, ints *[]int) 
 		"PanicErr": func() { panic(errors.New("native error")) },
 		"PanicEnv": func(env native.Env, n int) { panic("native env " + strconv.Itoa(n)) },
 		"PanicVar": func(xs ...int) { panic("native variadic " + strconv.Itoa(len(xs))) },
+		"EmbNil":   &NE1{},
+		"EmbHalf":  &NE1{NE2: &NE2{}},
+		"EmbFull":  &NE1{NE2: &NE2{NE3: &NE3{Z: 1, W: "w"}, Y: 2}},
+		"NewEmb":   func() *NE1 { return &NE1{NE2: &NE2{}} },
 		"NilFunc":  func() func() { return nil },
 		"NilT":     func() *T { return nil },
 		"PanicDef": func(n int) { panic("deferred native " + strconv.Itoa(n)) },
@@ -271,6 +292,27 @@ func (t *T) Boom()         { panic("method boom") }
 type Str string
 
 func (s Str) String() string { return string(s) }
+
+type NE3 struct {
+	Z int
+	W string
+}
+
+type NE2 struct {
+	*NE3
+	Y int
+}
+
+type NE1 struct {
+	*NE2
+	X int
+}
+
+var EmbNil = NE1{}
+var EmbHalf = NE1{NE2: &NE2{}}
+var EmbFull = NE1{NE2: &NE2{NE3: &NE3{Z: 1, W: "w"}, Y: 2}}
+
+func NewEmb() *NE1 { return &NE1{NE2: &NE2{}} }
 
 var NilIntPtr *int
 var NilMap map[string]int
